@@ -232,7 +232,7 @@ theorem c08_adaptive_exact_finish (step : StepFn K) (env : Nat → Flags) (henv 
     ends with the same `t`, `dt`, status and step count as the single call.
 
     PARTIAL: needs `hno` — the first call must not carry the time past `t₂`.  Without it the
-    statement is false of model and code alike (finding F18, `c08_split_overshoot_reverses`). -/
+    statement is false of model and code alike (finding C08-N1, `c08_split_overshoot_reverses`). -/
 theorem c08_split_same_steps_partial (step : StepFn K) (hfix : IsFixed step) (env : Nat → Flags)
     (henv : ∀ k, (env k).Clear) (s0 : Sim K) (t1 t2 sg d : K) (n1 n2 : Nat)
     (hst : s0.status ≠ stPAUSED ∧ s0.status ≠ stSCREENSHOT) (hex : s0.exactFinish ≠ 1)
@@ -252,12 +252,12 @@ theorem c08_split_same_steps_partial (step : StepFn K) (hfix : IsFixed step) (en
   split_same_steps step hfix env henv s0 t1 t2 sg d n1 n2 (by simpa [Status.code] using hst) hex hdt
     hsg hd h01 h12 hfirst1 hpast1 hfirst2 hpast2 hno
 
-/-- the simulation of finding F18: `t = 0`, `dt = 10`, NONE-like bookkeeping, exact_finish_time = 0 -/
+/-- the simulation of finding C08-N1: `t = 0`, `dt = 10`, NONE-like bookkeeping, exact_finish_time = 0 -/
 def f18Sim : Sim ℚ :=
   { t := 0, dt := 10, dtLastDone := 0, status := stRUNNING, exactFinish := 0, stepsDone := 0,
     nOdes := 0, isBS := false, syncs := 0, hist := [] }
 
-/-- Finding F18 — the full-strength split statement (without `hno`) is FALSE of the model, and the
+/-- Finding C08-N1 — the full-strength split statement (without `hno`) is FALSE of the model, and the
     tie shows the code does the same: with `dt = 10`, `integrate(1)` ends at `t = 10`; the following
     `integrate(2)` sees its target behind it, flips `dt` to −10 and steps back to `t = 0`, whereas
     `integrate(2)` alone ends at `t = 10`.  (Evaluated in the kernel on the ℚ instance of the model.) -/
